@@ -356,6 +356,55 @@ theorem C14_id_belongs (as : List (PConn.Action κ)) (s : PConn.State κ) (pre p
     unfold removedBefore
     rw [← hH.ban c cl hc]; exact h2
 
+/-- **An id and the bind metadata used with it are one token, injectively.** `PConn.token id sig` (one length
+    byte, the id, the value widths) determines both the prepared id and the widths, for ids shorter than 256 bytes:
+    so "the frame's token was returned by a PREPARE of that statement" (`C14_id_belongs`, `C14_metadata_belongs`)
+    says that BOTH the id and the metadata the values were encoded with are that PREPARE's. -/
+theorem C14_token_injective (i₁ s₁ i₂ s₂ : List UInt8) (h₁ : i₁.length < 256) (h₂ : i₂.length < 256)
+    (h : PConn.token i₁ s₁ = PConn.token i₂ s₂) : i₁ = i₂ ∧ s₁ = s₂ := by
+  unfold PConn.token at h
+  injection h with hl ha
+  have hn : i₁.length = i₂.length := by
+    have := congrArg UInt8.toNat hl
+    simp [UInt8.toNat_ofNat'] at this
+    omega
+  exact List.append_inj ha hn
+
+/-- the two fields can be read back from a token -/
+theorem C14_untoken_token (i s : List UInt8) (h : i.length < 256) : PConn.untoken (PConn.token i s) = (i, s) := by
+  unfold PConn.token PConn.untoken
+  have : (UInt8.ofNat i.length).toNat = i.length := by simp [UInt8.toNat_ofNat']; omega
+  simp [this]
+
+/-- **Bind metadata belongs to the statement.** Whenever, in any schedule, the server receives a frame of call c
+    whose j-th prepared entry carries the id `id` with values encoded to the widths `sig`: a PREPARE of exactly
+    the j-th entry's key (host, keyspace, statement) was answered with that very id AND column types of those very
+    widths (and as many columns as the entry has bound values), by a flight that had not left the cache when the
+    call started / sent its previous frame - and any PREPARE answer (id', sig') that yields the same token is that
+    answer. So values are never encoded with the metadata of another statement's, host's or keyspace's PREPARE, nor
+    with the metadata of a superseded PREPARE of the same statement. -/
+theorem C14_metadata_belongs (as : List (PConn.Action κ)) (s : PConn.State κ) (pre post : List (Ev κ)) (c : Nat) (ids : List Id) (a : XAns)
+    (h : PConn.run (PConn.initB b) as = some (s, pre ++ Ev.exec c ids a :: post)) :
+    ∃ b es, Ev.start c b es ∈ pre ∧ ids.length = es.length ∧
+      ∀ (j : Nat) (e : κ × Nat) (id sig : List UInt8), es[j]? = some e → ids[j]? = some (PConn.token id sig) → id.length < 256 →
+        ∃ f, Ev.prep f e.1 (some (PConn.token id sig, e.2)) ∈ pre ∧ removedBefore pre c f = false ∧
+          ∀ id' sig', id'.length < 256 → PConn.token id' sig' = PConn.token id sig → id' = id ∧ sig' = sig := by
+  obtain ⟨b', es, h1, h2, h3⟩ := C14_id_belongs as s pre post c ids a h
+  refine ⟨b', es, h1, h2, ?_⟩
+  intro j e id sig he hid hlen
+  obtain ⟨f, hf, hr⟩ := h3 j e _ he hid
+  exact ⟨f, hf, hr, fun id' sig' hl' ht => C14_token_injective id' sig' id sig hl' hlen ht⟩
+
+/-- non-vacuity: the PREPARE of statement 7 answers id [1] with one int column (width 4); an EXECUTE that carries
+    id [1] and a 4-byte value is accepted, one whose value was encoded to 8 bytes (the metadata of some other
+    PREPARE) is rejected, and so is the id of another statement with the right width -/
+example : (Obs.run (Obs.init : OState Nat) [.start 0 false [(7, 1)], .prep 0 7 (some (PConn.token [1] [4], 1)),
+    .exec 0 [PConn.token [1] [4]] .ok, .ret 0 .ok]).isSome = true := by decide
+example : (Obs.run (Obs.init : OState Nat) [.start 0 false [(7, 1)], .prep 0 7 (some (PConn.token [1] [4], 1)),
+    .exec 0 [PConn.token [1] [8]] .ok]).isNone = true := by decide
+example : (Obs.run (Obs.init : OState Nat) [.start 0 false [(7, 1)], .start 1 false [(8, 1)], .prep 0 7 (some (PConn.token [1] [4], 1)),
+    .prep 1 8 (some (PConn.token [2] [4], 1)), .exec 0 [PConn.token [2] [4]] .ok]).isNone = true := by decide
+
 /-- **Single flight on connections.** In every schedule and at every point of it, the number of PREPAREs the
     server has received for a key is at most one more than the number of times an entry of that key left the
     cache (capacity eviction, failed PREPARE, UNPREPARED): with no removal, one PREPARE however many
